@@ -121,7 +121,9 @@ CLAIMED['C01'] = dict(
          'parser returns the packet of the payload id (registered class given exactly the field bytes, unknown id -> generic '
          'Packet with the id), with the stream cursor exactly at the end of the frame, for one and for two consecutive '
          'symbolic frames, compression on/off; (iii) inflated size must match. Cipher wrappers refine the read/send contracts '
-         'for every split (stream homomorphism), Connection._write_packet passes the threshold iff compression is enabled.',
+         'for every split (stream homomorphism), Connection._write_packet passes the threshold iff compression is enabled. '
+         'Writers on several threads: every path to the wire holds the write lock (closed-world call-site scan + ghost lock depth '
+         'in write_packet), so the two sends of a frame stay adjacent; one directed two-thread schedule is replayed on the real code.',
     note='Trusted: zlib inverse pair, cipher contexts as stream homomorphisms (what AES-CFB8 computes is C18\'s bounded part), '
          'S1 read contracts, select.select arbitrary, S2 VarInt contracts (C03). Sequences longer than two frames follow by '
          'induction on the cursor postcondition - that induction is an argument, not machine-checked. Bounded stand-ins on the '
@@ -211,7 +213,10 @@ CLAIMED['C10'] = dict(
          'for every integer threshold with a frame condition; plugin request -> exactly one unsuccessful response queued; login '
          'success -> PlayingReactor of the same connection; any other packet changes nothing; login disconnect for 10 JSON body '
          'shapes with symbolic strings: never a silent exit, LoginDisconnect containing the message or VersionMismatch for the two '
-         '"Outdated" forms (regex as z3 regular expression).',
+         '"Outdated" forms (regex as z3 regular expression). Login dispatch tables for a symbolic supported version against the '
+         'reference in spec/protocol_ref.py: membership and ids of the clientbound/serverbound login packets per version range '
+         '(plugin packets from 385, shifted ids 385..390), the reactor resolves the specified id, and the plugin exchange bytes-in -> '
+         'bytes-out (VarInt id of any length, any channel, any payload -> VarInt(id) + false).',
     note='The history quantifier (any admissible order of steps) is an induction over these per-step obligations - an '
          'argument, not machine-checked. Trusted: os.urandom, RSA/AES constructors as uninterpreted functions, C17 hash '
          'contract, json.loads shapes, z3 string/regex theory. Bounded: the reaction with a real RSA-1024 key and real AES '
@@ -227,7 +232,9 @@ CLAIMED['C11'] = dict(
          'in FIFO order and only under the lock; read batch: every packet returned by read_packet is handed to _react exactly once, '
          'in order, before the next read, outside the lock, <= 50; a pending write error is the only exception _run raises itself, '
          'and it is dropped after a disconnect packet), the lock is released on every path. _handle_exit: callback exactly once '
-         'iff closed and set.',
+         'iff closed and set. Keep-alive on the wire: the server\'s bytes are built from the specification (Long from protocol 339, '
+         'canonical VarInt before; spec/protocol_ref.py), decoded, answered and re-encoded by the real code: whole field consumed and '
+         'the answer carries the same bytes, for every supported version and id.',
     note='Safety only: "always answered" as liveness (the loop runs again, the queue is eventually written) is not decided. '
          'Trusted: deque FIFO semantics, S4 version order, read_packet (C01) and _react (C13) through their contracts. Bounded: '
          'seeded 120-packet server histories on the real reactor at protocols 47/107/340/757, the real _run with 700 outgoing and '
